@@ -368,6 +368,32 @@ func (c15) Run(e *simkit.Env, cc any) {
 			all0 = append(all0, chunk...)
 		}
 		tmu.Unlock()
+		if c.TLS && c.Adversary == "replay-hello" {
+			// what the adversary recorded is the handshake of a fourth node with the right cookie on
+			// the plain acceptor; that node has left since, so its name is free on b
+			nb := len(sn.Links())
+			d := simkit.StartNetNode(e, sn, simkit.NetNodeOptions{Name: "d@h4", Cookie: effB, PoolSize: 1})
+			if d != nil {
+				_, derr := d.Network().GetNode("b@h2")
+				e.Settle(time.Second)
+				simkit.StopNode(e, d, false, 0)
+				e.Settle(3 * time.Second)
+				if derr == nil {
+					tmu.Lock()
+					for _, l := range sn.Links() {
+						if l.ID >= nb && l.ServerAddr == "h2:15000" && len(transcripts[l.ID]) > 0 {
+							all0 = nil
+							for _, chunk := range transcripts[l.ID] {
+								all0 = append(all0, chunk...)
+							}
+							break
+						}
+					}
+					tmu.Unlock()
+					e.Probe("recorded-plain-handshake-replayed-over-tls")
+				}
+			}
+		}
 		switch c.Adversary {
 		case "silence":
 			send(nil, 1500*time.Millisecond)
